@@ -65,11 +65,19 @@ class Tools:
         rcm, om, em = vlib.run_lines(self.model, [G.ty_text(t) for t in decls])
         if rcm != 0 or len(om) != len(decls):
             raise vlib.BuildError('model driver failed: rc=%d %s' % (rcm, em[-500:]))
+        # sign of the values read back from bit-fields: 'V <i> <letters>' lines; models: 'B' lines
+        va = {l.split()[1]: l.split()[2] for l in o1.split('\n') if l.startswith('V ') and len(l.split()) == 3}
+        vb = {l.split()[1]: l.split()[2] for l in o2.split('\n') if l.startswith('V ') and len(l.split()) == 3}
+        rcb, ob, eb = vlib.run_lines(self.model, ['B ' + G.ty_text(t) for t in decls])
+        if rcb != 0 or len(ob) != len(decls):
+            raise vlib.BuildError('model driver failed (B): rc=%d %s' % (rcb, eb[-500:]))
         res = []
         for i, t in enumerate(decls):
             parts = om[i].split('|')
             mc, ms = [' '.join(x.split()[1:]) for x in parts[:2]]
-            res.append(dict(c2m=a.get(str(i)), gcc=b.get(str(i)), mc=mc, ms=ms, bss=bss.get(str(i)), wf=parts[2].strip()))
+            res.append(dict(c2m=a.get(str(i)), gcc=b.get(str(i)), mc=mc, ms=ms, bss=bss.get(str(i)), wf=parts[2].strip(),
+                            c2m_sign=va.get(str(i), ''), gcc_sign=vb.get(str(i), ''), m_sign=ob[i].split()[1:],
+                            bf_leaves=G.bf_leaves(t)))
         info = dict(c2m_rc=rc1, c2m_err=e1[-400:], gcc_rc=rc2, gcc_err=e2[-400:])
         return res, info
 
@@ -98,15 +106,27 @@ class Tools:
         rc2, o2, e2 = vlib.sh([self.c2m, sig, '-S', '-o', mir], timeout=300, cwd=self.dir)
         sigs = {}
         if os.path.exists(mir):
-            for m in re.finditer(r'^(ret\d+|arg\d+_\d+):\s+func[ \t]*(.*)$', open(mir, errors='replace').read(), re.M):
+            for m in re.finditer(r'^(ret\d+|arg\d+_\d+|mix\d+):\s+func[ \t]*(.*)$', open(mir, errors='replace').read(), re.M):
                 sigs[m.group(1)] = [x.strip() for x in m.group(2).split(',')] if m.group(2).strip() else []
         pres = ' '.join('%d,%d' % p for p in G.PRE_ARGS)
         rcm, om, em = vlib.run_lines(self.model, ['K %s | %s' % (pres, G.ty_text(t)) for t in decls])
         if rcm != 0 or len(om) != len(decls):
             raise vlib.BuildError('model driver failed: rc=%d %s' % (rcm, em[-500:]))
+        # whole signatures (result through the hidden pointer, mixed scalar kinds): c2m_signature / sv_signature
+        rcg, og, eg = vlib.run_lines(self.model, ['G %d %s | %s' % (G.MIX_SIGS[i % len(G.MIX_SIGS)][0], G.MIX_SIGS[i % len(G.MIX_SIGS)][1] or '-',
+                                                                  G.ty_text(t)) for i, t in enumerate(decls)])
+        if rcg != 0 or len(og) != len(decls):
+            raise vlib.BuildError('model driver failed (G): rc=%d %s' % (rcg, eg[-500:]))
         res = []
         for i, t in enumerate(decls):
             r = dict(gcc_arg=g.get('A%d' % i), gcc_ret=g.get('R%d' % i), c2m_err=e2[-300:])
+            ps = sigs.get('mix%d' % i)
+            mms = [re.match(r'(blk\d:\d+)\(', x) for x in ps[-3:]] if ps and len(ps) >= 3 else [None]
+            r['c2m_mix'] = '+'.join(m.group(1) for m in mms) if all(mms) else None
+            r['c2m_mix_rblk'] = bool(ps) and ps[0].startswith('rblk:')
+            kv = dict(x.split('=') for x in og[i].split()[1:])
+            r['mc_mix'], r['ms_mix'], r['nopad'] = kv['c2m'], kv['sv'], kv['nopad']
+            r['mix'] = '%d:%s' % G.MIX_SIGS[i % len(G.MIX_SIGS)]
             ps = sigs.get('ret%d' % i)
             if ps is None:
                 r['c2m_ret'] = None
@@ -215,6 +235,13 @@ def kverdict(t, r):
         return 'model-sysv'
     if [blk_letters(b) for b in r['mc_args']] != r['ms_args'] or r['mc_ret'] != r['ms_ret']:
         return 'models-differ'          # the two Coq models disagree (register exhaustion cases)
+    # the mixed signature (theorem signature_eq_sysv): c2m -S vs c2m_signature vs sv_signature
+    if r.get('c2m_mix') is None:
+        return 'c2m-fails'
+    if re.sub(r':\d+', '', r['c2m_mix']) != r['mc_mix'] or r['c2m_mix_rblk'] != r['mix'].startswith('1:'):
+        return 'model-c2m'
+    if blk_letters(r['c2m_mix']) != r['ms_mix']:
+        return 'models-differ'
     return 'ok'
 
 
@@ -232,7 +259,43 @@ def verdict(r):
         return 'model-sysv'
     if r.get('bss') is None or r['bss'] < int(r['c2m'].split()[0]):
         return 'bss-short'
-    return 'ok'
+    return sign_verdict(r)
+
+
+# How the sign of bit-field values is compared (coq/C08/TotalProofs.v c2m_bf_signed / sv_bf_signed).
+# TEMPORARY exact filter until fixes/C08-7.patch is in /repo: a bit-field narrower than 32 bits whose declared
+# type is an enum with a negative enumerator is read zero-extended by c2m and sign-extended by gcc (theorem
+# bf_sign_enum_eq_sysv_refuted).  Exactly these leaves may differ, and only in that direction; on a tree with
+# the fix they agree and the filter never applies.  The c2mir model is run with and without the fix: c2m must
+# follow one of the two on every leaf of the run (SIGN_VERSIONS collects which).
+SIGN_VERSIONS = set()
+
+
+def sign_verdict(r):
+    cs, gs, ms, lv = r.get('c2m_sign', ''), r.get('gcc_sign', ''), r.get('m_sign', []), r.get('bf_leaves', [])
+    if len(cs) != len(ms) or len(gs) != len(ms) or len(lv) != len(ms):
+        return 'sign-unreadable' if (cs or gs or ms) else 'ok'
+    v = 'ok'
+    for c, g, m, (bt, w) in zip(cs, gs, ms, lv):
+        if g != m[2]:
+            return 'model-sysv-sign'
+        if bt[0] == 'e' and w >= 32:
+            # not compared between c2m and gcc (outside bf_sign_enum_eq_sysv_partial): at these widths the sign is
+            # the signedness of the enum's underlying type, where c2mir (int/long) and gcc (unsigned when no
+            # enumerator is negative) differ as C implementations; both are still tied to their models
+            if c != m[0]:
+                return 'model-c2m-sign'
+            continue
+        if c != g:
+            if (c, g) == ('u', 's') and m == 'uss':
+                v = 'ok-known-enum-sign'      # the exact deviation fixes/C08-7 repairs
+            else:
+                return 'abi-mismatch-sign'
+        if m[0] != m[1]:
+            SIGN_VERSIONS.add('unfixed' if c == m[0] else 'fixed')
+        elif c != m[0]:
+            return 'model-c2m-sign'
+    return v
 
 
 def gen_decls(chk, n, salt):
@@ -244,8 +307,8 @@ def gen_decls(chk, n, salt):
     return out
 
 
-def load_corpus():
-    p = os.path.join(vlib.VERIF, 'corpus', 'c08_decls.txt')
+def load_corpus(name='c08_decls.txt'):
+    p = os.path.join(vlib.VERIF, 'corpus', name)
     out = []
     if os.path.exists(p):
         for l in open(p):
@@ -294,12 +357,15 @@ def layout_part(chk, tools, decls, label):
         chk.dist('decl_nodes', min(60, G.size_of(t) // 10 * 10))
         for tr in member_transitions(t):
             chk.dist('struct_member_transitions', tr)
-        if v != 'ok':
+        for bt, w in G.bf_leaves(t):
+            chk.dist('bitfield_leaf_types', ('enum-' + bt[1] if bt[0] == 'e' else bt[1]) + (':full' if w == 8 * (G.ENUM_SIZE[bt[1]] if bt[0] == 'e' else G.KSIZE[bt[1]]) else ''))
+        if v not in ('ok', 'ok-known-enum-sign'):
             bad.setdefault(v, []).append((t, r))
     chk.log('%s: %d declarations, verdicts %s' % (label, len(decls), {k: len(v) for k, v in bad.items()} or 'all ok'))
     seen = set()
     real = 0
-    for v in ('abi-mismatch', 'c2m-fails', 'gcc-rejects', 'bss-short', 'model-c2m', 'model-sysv'):
+    for v in ('abi-mismatch', 'abi-mismatch-sign', 'c2m-fails', 'gcc-rejects', 'bss-short', 'sign-unreadable', 'model-c2m', 'model-sysv',
+              'model-c2m-sign', 'model-sysv-sign'):
         for t, r in bad.get(v, [])[:6]:
             if v in ('gcc-rejects',):
                 # generator produced something gcc does not accept: a harness problem, never silent
@@ -314,9 +380,19 @@ def layout_part(chk, tools, decls, label):
             rr, inf = tools.layout([small])
             obj = dict(kind='layout', decl=txt, c2m=rr[0]['c2m'], gcc=rr[0]['gcc'], model_c2m=rr[0]['mc'],
                        model_sysv=rr[0]['ms'], original=G.ty_text(t), c2m_err=inf['c2m_err'])
+            obj.update(c2m_sign=rr[0]['c2m_sign'], gcc_sign=rr[0]['gcc_sign'], model_sign=rr[0]['m_sign'])
             if v == 'abi-mismatch':
                 real += 1
                 chk.finding('layout:' + txt, obj, 'c2m and gcc lay out differently: %s  c2m[%s] gcc[%s]' % (txt, rr[0]['c2m'], rr[0]['gcc']))
+            elif v == 'abi-mismatch-sign':
+                real += 1
+                chk.finding('bfsign:' + txt, obj, 'c2m and gcc read the value of a bit-field with different sign (s = sign-extended, u = zero-extended, '
+                            'one letter per named bit-field): %s  c2m[%s] gcc[%s]' % (txt, rr[0]['c2m_sign'], rr[0]['gcc_sign']))
+            elif v == 'sign-unreadable':
+                chk.finding('harness:sign', obj, 'the bit-field sign probe printed no usable line for ' + txt, no_input=True)
+            elif v in ('model-c2m-sign', 'model-sysv-sign'):
+                DEFERRED.append(('tie:' + v, obj, {'model-c2m-sign': 'c2m agrees with gcc but no longer with the Coq model of the sign of bit-field values (c2m_bf_signed) on: ',
+                                                   'model-sysv-sign': 'gcc no longer agrees with the model sv_bf_signed on: '}[v] + txt))
             elif v == 'bss-short':
                 real += 1
                 obj['bss'] = rr[0]['bss']
@@ -352,6 +428,9 @@ def classify_part(chk, tools, decls, label):
         chk.dist('in_classification_quantifier(wf_ty)', r['wf'])
         if r['wf'] != '1':
             NOT_WF.append(G.ty_text(t))
+        for f in sorted(G.features(t) | G.shape_features(t)):
+            chk.dist('classified_decl_features', f)
+        chk.dist('mixed_signature', r.get('mix', '?'))
         chk.dist('arg_class(gcc)', (r['gcc_arg'] or '?').upper())
         chk.dist('ret_class(gcc)', (r['gcc_ret'] or '?').upper())
         if v not in ('ok', 'padding-eightbyte', 'gcc-union-unnamed-bf'):
@@ -393,7 +472,7 @@ FILLER = ('s', [('n', ('b', 'char'))])
 
 def odd_stack_prefix(index):
     nl, nd = G.PRE_ARGS[index % len(G.PRE_ARGS)]
-    return (max(0, nl - 6) + max(0, nd - 8)) % 2 == 1
+    return (max(0, nl - 6) + max(0, nd - 8)) % 2 == 1 or G.mix_stack_words(index) % 2 == 1
 
 
 # MIR block types carry no alignment: a 16-byte aligned aggregate that is passed in memory after an odd
@@ -414,12 +493,15 @@ def align16_witness(chk, tools):
                     '%s after %d longs' % (ALIGN16_WITNESS, G.PRE_ARGS[idx][0]))
 
 
+PASS_DIRS = 'arARvVmM'
+
+
 def pass_failures(tools, decls, modes=('-ei', '-eg')):
     res, info = tools.passing(decls, modes)
     bad = []
     for mode in modes:
         for i in range(len(decls)):
-            for d in 'arARvV':
+            for d in PASS_DIRS:
                 if res[mode].get((i, d)) != 'ok':
                     bad.append((i, mode, d, res[mode].get((i, d), 'missing')))
     return bad, info
@@ -447,10 +529,10 @@ def passing_part(chk, tools, decls, label, modes=('-ei', '-eg')):
     use = placed
     bad, info = pass_failures(tools, use, modes)
     for t in use:
-        chk.count('P ' + G.ty_text(t), nontrivial=True, n=6 * len(modes))
-    chk.dist('passing_runs', 'ok', 6 * len(modes) * len(use) - len(bad))
+        chk.count('P ' + G.ty_text(t), nontrivial=True, n=len(PASS_DIRS) * len(modes))
+    chk.dist('passing_runs', 'ok', len(PASS_DIRS) * len(modes) * len(use) - len(bad))
     chk.dist('passing_runs', 'BAD', len(bad))
-    chk.log('%s: %d aggregates x 6 directions x %s: %s' % (label, len(use), '/'.join(modes), '%d failures' % len(bad) if bad else 'all intact'))
+    chk.log('%s: %d aggregates x 8 directions x %s: %s' % (label, len(use), '/'.join(modes), '%d failures' % len(bad) if bad else 'all intact'))
     seen = set()
     for i, mode, d, what in bad[:4]:
         t = use[i]
@@ -469,8 +551,9 @@ def passing_part(chk, tools, decls, label, modes=('-ei', '-eg')):
         seen.add(txt)
         chk.finding('passing:%s' % txt, dict(kind='passing', decl=txt, original=G.ty_text(t), mode=mode, direction=d, what=what,
                                              prefix=list(G.PRE_ARGS[pos]), index=pos, info=info),
-                    'aggregate does not arrive intact between c2m (%s) and gcc code, direction %s (a/r/v: c2m caller, A/R/V: gcc caller, v/V variadic; '
-                    'prefix %d longs %d doubles): %s' % (mode, d, G.PRE_ARGS[pos][0], G.PRE_ARGS[pos][1], txt))
+                    'aggregate does not arrive intact between c2m (%s) and gcc code, direction %s (a/r/v/m: c2m caller, A/R/V/M: gcc caller, v/V variadic, '
+                    'm/M mixed signature %s [1: = result through the hidden pointer; l i c p f d x scalars before it]; '
+                    'prefix %d longs %d doubles): %s' % (mode, d, '%d:%s' % G.MIX_SIGS[pos % len(G.MIX_SIGS)], G.PRE_ARGS[pos][0], G.PRE_ARGS[pos][1], txt))
     return bad
 
 
@@ -555,8 +638,16 @@ def run(chk):
                     chk.sample(G.ty_text(t)[:300])
             for k, v in layout_part(chk, tools, decls, 'layout batch %d' % b).items():
                 bad.setdefault(k, []).extend(v)
+        chk.cov['bitfield_sign_model_version'] = sorted(SIGN_VERSIONS) or ['no enum bit-field with a negative enumerator seen']
+        if len(SIGN_VERSIONS) > 1:
+            DEFERRED.append(('tie:model-c2m-sign', dict(kind='layout', decl='s{ f2 eint ; f7 eneg8 }', versions=sorted(SIGN_VERSIONS)),
+                             'c2m follows neither version of c2m_bf_signed consistently (with / without fixes/C08-7) on enum bit-fields'))
         padding_witness(chk, tools)
         align16_witness(chk, tools)
+        pcorpus = load_corpus('c08_pass.txt')
+        if pcorpus:
+            classify_part(chk, tools, pcorpus, 'passing corpus (classification)')
+            passing_part(chk, tools, pcorpus, 'passing corpus')
         kb, kper = (2, 250) if quick else (20, 500)
         for b in range(kb):
             ds = gen_small(chk, kper, 'classify%d' % b)
